@@ -734,6 +734,15 @@ func (ex *Exec) chanSend(st *State, site ssa.Instruction, c Value, v Value) {
 	if st.dead {
 		return
 	}
+	if cc.Ring {
+		sl := make([]Value, len(cc.Slots))
+		for i := range sl {
+			sl[i] = mergeV(smt.Eq(cc.Len, bv64(int64(i))), v, cc.Slots[i])
+		}
+		st.assume(smt.Ult(cc.Len, bv64(int64(len(cc.Slots))))) // the scheduler only runs a send that can proceed
+		st.heap[cv.Obj] = &ChanC{Ring: true, Slots: sl, Len: smt.Add(cc.Len, bv64(1)), Closed: cc.Closed, Cap: cc.Cap}
+		return
+	}
 	e := append(append([]ChanEntry(nil), cc.Entries...), ChanEntry{G: smt.True, V: v})
 	st.heap[cv.Obj] = &ChanC{Entries: e, Closed: cc.Closed, Cap: cc.Cap, Sent: cc.Sent + 1}
 }
@@ -744,6 +753,9 @@ func (ex *Exec) chanLen(st *State, c Value) *smt.Term {
 		return bv64(0)
 	}
 	cc := ex.get(st, cv.Obj).(*ChanC)
+	if cc.Ring {
+		return cc.Len
+	}
 	n := bv64(0)
 	for _, e := range cc.Entries {
 		n = smt.Add(n, smt.Ite(e.G, bv64(1), bv64(0)))
@@ -769,6 +781,28 @@ func (ex *Exec) chanRecv(st *State, site ssa.Instruction, c Value, commaOk bool,
 		et = rt
 	}
 	zero := ex.zero(et)
+	if cc.Ring {
+		nonEmpty := smt.Not(smt.Eq(cc.Len, bv64(0)))
+		blocked := smt.And(smt.Not(nonEmpty), smt.Not(cc.Closed))
+		st.assume(smt.Not(blocked))
+		if st.dead {
+			return nil
+		}
+		val := mergeV(nonEmpty, cc.Slots[0], zero)
+		sl := make([]Value, len(cc.Slots))
+		for i := range sl {
+			if i+1 < len(cc.Slots) {
+				sl[i] = mergeV(nonEmpty, cc.Slots[i+1], cc.Slots[i])
+			} else {
+				sl[i] = cc.Slots[i]
+			}
+		}
+		st.heap[cv.Obj] = &ChanC{Ring: true, Slots: sl, Len: smt.Ite(nonEmpty, smt.Sub(cc.Len, bv64(1)), cc.Len), Closed: cc.Closed, Cap: cc.Cap}
+		if commaOk {
+			return &TupleV{E: []Value{val, nonEmpty}}
+		}
+		return val
+	}
 	// first present entry
 	some := smt.False
 	var val Value = zero
@@ -786,7 +820,13 @@ func (ex *Exec) chanRecv(st *State, site ssa.Instruction, c Value, commaOk bool,
 	}
 	// empty and not closed: blocks forever in sequential mode
 	blocked := smt.And(smt.Not(some), smt.Not(cc.Closed))
-	if !blocked.IsFalse() {
+	if ex.inE2 {
+		// the scheduler only runs a receive that can proceed
+		st.assume(smt.Not(blocked))
+		if st.dead {
+			return nil
+		}
+	} else if !blocked.IsFalse() {
 		ex.outcome("blocked", "receive on empty open channel (sequential mode)", site, smt.And(st.pc, blocked))
 		st.assume(smt.Not(blocked))
 		if st.dead {
@@ -818,6 +858,10 @@ func (ex *Exec) chanClose(st *State, site ssa.Instruction, c Value) {
 	cc := ex.get(st, cv.Obj).(*ChanC)
 	ex.implicitPanic(st, site, "close of closed channel", cc.Closed)
 	if st.dead {
+		return
+	}
+	if cc.Ring {
+		st.heap[cv.Obj] = &ChanC{Ring: true, Slots: cc.Slots, Len: cc.Len, Closed: smt.True, Cap: cc.Cap}
 		return
 	}
 	st.heap[cv.Obj] = &ChanC{Entries: cc.Entries, Closed: smt.True, Cap: cc.Cap, Sent: cc.Sent}
